@@ -235,7 +235,10 @@ def get_iv(st, vid):
             r = (max(r[0], e[0]), min(r[1], e[1]))
         if r[0] > r[1]:
             r = (-INF, INF)
-        st.iv[vid] = r
+        if r == (-INF, INF):
+            del st.iv[vid]       # nothing learnt: do not make the vid look live in this state
+        else:
+            st.iv[vid] = r
         return r
     return (-INF, INF)
 
@@ -705,6 +708,37 @@ def _split_high_low(ax, c):
     return Aff({s_: k // c for s_, k in high.items()}, k0), Aff(dict(low), l0)
 
 
+def _split_scaled(st, ax, c):
+    """ax = H + g*y + L with c | coefficients of H, one atom y >= 0 whose coefficient g divides c (1 < g < c), and
+    0 <= L < g in every state:  ax / c = H/c + y/(c/g),   ax % c = g*(y % (c/g)) + L"""
+    if ax is None or ax.mod or len(ax.co) < 2:
+        return None
+    for y, g in ax.co.items():
+        if g <= 1 or g >= c or c % g:
+            continue
+        gy = grange_of(y)
+        if gy is None or gy[0] < 0:
+            continue
+        H = {s_: k for s_, k in ax.co.items() if s_ != y and k % c == 0}
+        L = {s_: k for s_, k in ax.co.items() if s_ != y and k % c != 0}
+        lo = hi = ax.c0
+        okl = True
+        for s_, k in L.items():
+            gs = grange_of(s_)
+            if gs is None:
+                okl = False
+                break
+            lo += k * (gs[0] if k > 0 else gs[1])
+            hi += k * (gs[1] if k > 0 else gs[0])
+        if not okl or lo < 0 or hi >= g:
+            continue
+        qy, ry = divmod_vids(st, y, c // g)
+        qa = aff_add(Aff({s_: k // c for s_, k in H.items()}, 0), aff_of(qy))
+        ra = aff_add(aff_scale(aff_of(ry), g), Aff(dict(L), ax.c0))
+        return qa, ra
+    return None
+
+
 def _reg_triple(x, c, q, r):
     t = (x, c, q, r)
     DIVMOD[(x, c)] = (q, r)
@@ -755,6 +789,16 @@ def divmod_vids(st, x, c):
                 for o in (q1, qq):
                     USERS.setdefault(o, []).append(q)
                 break
+        if q is None and x in AFF:
+            sc = _split_scaled(st, aff_of(x), c)
+            if sc is not None:
+                q = new_vid(); r = new_vid()
+                TERM[q] = ('Div', x, cv); TERM[r] = ('Rem', x, cv)
+                AFF[q], AFF[r] = sc
+                USERS.setdefault(x, []).extend([q, r])
+                for a_, tgt in ((sc[0], q), (sc[1], r)):
+                    for o in a_.co:
+                        USERS.setdefault(o, []).append(tgt)
         if q is None:
             hl = _split_high_low(aff_of(x), c) if x in AFF else None
             q = new_vid()
@@ -879,9 +923,7 @@ def _is_zero(d, m):
 
 
 def _to_zero(d, m, depth, seen, st=None):
-    if st is not None:
-        d = aff_concretize(st, d)
-    if _is_zero(d, m):
+    if _is_zero(aff_concretize(st, d) if st is not None else d, m):
         return True
     k = d.key()
     if depth == 0 or k in seen or len(seen) > 400:
@@ -940,12 +982,12 @@ def sources(vids, limit=20000):
     return out, tags
 
 
-def divmod_euclid(st, x, c):
+def divmod_euclid(st, x, c, force=False):
     """(q, r) with x = c*q + r and 0 <= r < c (Euclidean division by a positive constant)"""
     lo, hi = get_iv(st, x)
     key = (x, c, 'euclid')
     got = DIVMOD.get(key)
-    if got is None and lo >= 0:
+    if got is None and lo >= 0 and not force:
         return divmod_vids(st, x, c)      # coincides with truncating division
     if got is None:
         q = new_vid(); r = new_vid()
@@ -968,3 +1010,35 @@ def divmod_euclid(st, x, c):
     st.iv[r] = (max(0, orr[0]), min(c - 1, orr[1]))
     _enforce_triples(st, x, 0)
     return q, r
+
+
+def aff_variants(d, depth=4, limit=200):
+    """forms exactly equal to d obtained by rewriting with the div/mod triples (bounded search)"""
+    seen = {d.key(): d}
+    frontier = [d]
+    for _ in range(depth):
+        nxt = []
+        for f in frontier:
+            for v, coef in list(f.co.items()):
+                for (x, c, q, r) in TRIPLES.get(v, ()):
+                    ax = aff_of(x)
+                    if ax.mod:
+                        continue
+                    rest = dict(f.co)
+                    del rest[v]
+                    base = Aff(rest, f.c0, f.mod)
+                    cands = []
+                    if q == v and v not in AFF and coef % c == 0:
+                        cands.append(aff_add(base, aff_add(ax, aff_of(r), -1), coef // c))
+                    if r == v and v not in AFF:
+                        cands.append(aff_add(base, aff_add(ax, aff_scale(aff_of(q), c), -1), coef))
+                    if x == v and v not in AFF:
+                        cands.append(aff_add(base, aff_add(aff_scale(aff_of(q), c), aff_of(r)), coef))
+                    for cand in cands:
+                        if cand is not None and cand.key() not in seen and len(seen) < limit:
+                            seen[cand.key()] = cand
+                            nxt.append(cand)
+        frontier = nxt
+        if not frontier:
+            break
+    return list(seen.values())
